@@ -228,6 +228,14 @@ class ExprMixin:
                 return Const(r)
             except Exception:
                 pass
+        if sym == "%" and isinstance(a, Const) and isinstance(a.value, str) and not isinstance(b, Const):
+            import re as _re2
+            specs = _re2.findall(r"%[rsd]", a.value)
+            if len(specs) == 1 and a.value.count("%") == 1 and not isinstance(b, (TupleV, DictV)):
+                # `fmt % x` with a non-tuple operand: a tuple value of x is UNPACKED by the operator
+                head, tail = a.value.split(specs[0])
+                self.emit("percent_format", node, fmt=a, operand=b)
+                return StrV([head, (b, ("r" if specs[0] == "%r" else "") + "%"), tail])
         if sym == "+":
             if isinstance(a, (StrV, Const)) and isinstance(b, (StrV, Const)) and \
                     (a.kind == "str" and b.kind == "str"):
@@ -294,7 +302,28 @@ class ExprMixin:
             t = Term("is", (a, b), kind="bool", node=node)
             return t if op == "is" else Term("not", (t,), kind="bool", node=node)
         if op in ("in", "not in"):
+            a = self.resolve(a)
             r = self._contains(b, a)
+            if r is None and isinstance(a, Sym) and isinstance(b, DictV) and b.concrete() and b.pairs() \
+                    and self.kind_of(a) in (None, "key") and self.known_fact(Term("in", (a, b)).key()) is None:
+                # membership of a symbolic key in a concrete token table: case split on WHICH token it equals
+                src = a.origin[1] if a.origin and a.origin[0] in ("key", "elem") and len(a.origin) > 1 and isinstance(a.origin[1], V) else None
+                no_ell = "ellipsis" in self.notkinds.get(a.uid, []) or \
+                    (src is not None and self.known_fact(f"in(..., {src.key()})") is False)
+                cands = [k for k, _ in b.pairs() if not (is_ell(k) and no_ell)
+                         and not (src is not None and self.known_fact(f"in({k.key()}, {src.key()})") is False)]
+                t = Term("in", (a, b), kind="bool", node=node)
+                c = self.ch.choose(len(cands) + 1, t.key())
+                if c < len(cands):
+                    self.aliases[a.uid] = cands[c]
+                    self.add_fact(t.key(), t, True)
+                    self.emit("cond", node, term=t, value=True, unified=cands[c])
+                    r = True
+                else:
+                    self.add_fact(t.key(), t, False)
+                    self.emit("cond", node, term=t, value=False)
+                    r = False
+                return Const(r if op == "in" else not r)
             if r is not None:
                 if not isinstance(a, Const):
                     self.emit("decided", node, term=Term("in", (a, b), kind="bool", node=node), value=r)
@@ -377,6 +406,7 @@ class ExprMixin:
         return None
 
     def _equal(self, a: V, b: V) -> Optional[bool]:
+        a, b = self.resolve(a), self.resolve(b)
         if is_ell(a) or is_ell(b):
             x = b if is_ell(a) else a
             if is_ell(x):
@@ -453,6 +483,7 @@ class ExprMixin:
         return self.getitem(recv, idx, node)
 
     def getitem(self, recv: V, idx: V, node: Any) -> V:
+        idx = self.resolve(idx)
         if isinstance(recv, (ListV, TupleV)) and isinstance(idx, Const) and isinstance(idx.value, int):
             n = len(recv.items)
             if recv.concrete():
@@ -595,6 +626,13 @@ class ExprMixin:
         kind = None
         if attr == "version" and k == "UUID":
             kind = "int"
+        if k == "Props":
+            # a prop getter on a props object of unknown class: kind from the getter annotations of all Props classes
+            model = getattr(self, "model", None)
+            if model is not None:
+                ks = {annotation_kind(s_.prop_annot[attr]) for s_ in model.schemas.values() if attr in s_.prop_annot}
+                if len(ks) == 1:
+                    kind = ks.pop()
         return Term("attr", (recv, attr), kind=kind, node=node)
 
     def class_attr(self, ci: ClassInfo, recv: V, attr: str, node: Any) -> V:
@@ -674,6 +712,10 @@ class ExprMixin:
         src = self.eval(gens[0].iter, inner) if False else None
         kind = {"list": "list", "set": "set", "dict": "dict", "gen": "generator"}[make]
         extra = (TupleV(all_conds),) if all_conds else ()
+        if make != "dict":
+            t_ = Term(make + "comp", (elt, Term("src", (first_iter[0],))) + extra, kind=kind, node=node)
+            t_.elem_kind = self.kind_of(elt) if isinstance(elt, V) else None  # type: ignore
+            return t_
         if make == "dict":
             return Term("dictcomp", (elt[0], elt[1], Term("src", (first_iter[0],))) + extra, kind=kind, node=node)
         return Term(make + "comp", (elt, Term("src", (first_iter[0],))) + extra, kind=kind, node=node)
